@@ -3,7 +3,7 @@ from ..core import Result, Corpus, proof_stage, correspond, distribution
 from ..spec import ESpec, VSpec, hx
 from .. import strcorpus, textgen, runner
 
-SPELLS = ['Kiss', 'straße', 'İstanbul', 'kelvinK', 'sıfır', 'Ünï-Code', 'ABC', 'abc9', 'MiXeD', 'ſhort', 'Ski', 'is', 'SS', 'ss',
+SPELLS = ['Ärger', 'ÉCOLE', 'Kelvin', 'Kiss', 'straße', 'İstanbul', 'kelvinK', 'sıfır', 'Ünï-Code', 'ABC', 'abc9', 'MiXeD', 'ſhort', 'Ski', 'is', 'SS', 'ss',
           'σίσυφος', 'K1', 'aZ', 'q']
 
 
@@ -16,7 +16,7 @@ def generate(tier, rng):
             for kind in (('unit', []), ('tuple', ['u8'])):
                 e = ESpec(id='c12_%d' % n, name='EnC12x%d' % n, ci=eci, derives=['EnumString'], feats=['parse'])
                 for j, vci in enumerate((None, True, False)):
-                    sp = SPELLS[(base + j) % len(SPELLS)]
+                    sp = SPELLS[(base + j + (n // 2) % 3) % len(SPELLS)]
                     # one variant named by identifier-free literal, one by two literals
                     v = VSpec(ident='V%d' % j, kind=kind[0], ftypes=list(kind[1]), ci=vci)
                     if n % 2 == 0:
